@@ -351,8 +351,9 @@ class Emit:
         if c == 5:
             t, e = self.expr(0)
             toks, kids = ["switch"] + t, [e]
+            lc = lambda: (["\n", self.r.choice(COMMENTS)] if self.r.chance(1, 4) else [])   # a comment line in front of a block keyword
             for _ in range(self.r.below(3)):
-                toks += ["\n", "when"]
+                toks += lc() + ["\n", "when"]
                 if self.r.chance(1, 3):
                     toks += ["1", "to", "5"]
                     w = N("bin_op", "to", [N("terminal", "1"), N("terminal", "5")])
@@ -370,9 +371,9 @@ class Emit:
                 kids.append(N("when", "when_block", [w] + ks))
             if self.r.chance(1, 2):
                 b, ks = self.block(d - 1)
-                toks += ["\n", "else"] + b
+                toks += lc() + ["\n", "else"] + b
                 kids.append(N("when", "when_block", ks))
-            return toks + ["\n", "endSwitch"], N("switch", "switch", kids)
+            return toks + lc() + ["\n", "endSwitch"], N("switch", "switch", kids)
         if c == 6:
             b, ks = self.block(d - 1)
             t, cond = self.expr(d - 1)
